@@ -2377,6 +2377,267 @@ def simplify_cases(chk, lat, rng):
     return out
 
 
+# ------------------------------------------------------------------------------------------------
+# histories of calls on ONE Source object (wave 8): the event-table cache and the tag counter
+# (model `Model/C06Src.lean`, driver op `src_hist`)
+# ------------------------------------------------------------------------------------------------
+SRC_PRIVATE = ("_prob_table", "_prob_table_n", "_prob_table_filter", "cache_prob_table", "_compute_prob_table")
+
+
+def is_event_draw(call):
+    """is this recorded random.choices call the draw of the events (population = keys of the event table)?"""
+    kind, pop, w, _ = call
+    return kind == "c" and w is not None and len(pop) > 0 and \
+        all(isinstance(x, tuple) and len(x) == 3 and all(isinstance(y, int) for y in x) for x in pop)
+
+
+def src_lean_ops(steps):
+    return [{k: v for k, v in st.items() if k != "k"} for st in steps]
+
+
+def src_cmp_table(P, n, f, keys, vals, model_rows):
+    """ordered keys exactly, values with the tolerance of the filtered table -> None or text"""
+    mkeys = [(i, j, k) for i, j, k, _ in model_rows]
+    if list(keys) != mkeys:
+        return f"event keys: code {list(keys)[:6]}, model {mkeys[:6]}"
+    rtol = cond_rtol(P, n, f)
+    for key, v, row in zip(keys, vals, model_rows):
+        if not close_rel(float(v), float(F(row[3])), rtol):
+            return f"event {key}: code {float(v)!r}, model {float(F(row[3]))!r}"
+    return None
+
+
+def judge_srchist(chk, case):
+    import perceval as pcvl
+    from perceval.utils import BasicState
+    P, steps = case["P"], case["steps"]
+    pcvl.random_seed(case["seed"])
+    pyrandom.seed(case["seed"])
+    t0 = case.get("t0", 0)
+    if t0:
+        # the caller's own context dictionary (public constructor argument) with a tag counter that is not 0
+        from perceval.components import Source
+        d = derived(P)
+        src = Source(emission_probability=float(d["beta"]), multiphoton_component=float(d["g2"]),
+                     indistinguishability=float(d["ind"]), losses=float(d["losses"]),
+                     multiphoton_model=d["model"], context={"discernability_tag": t0})
+        chk.branch("src-context-tag")
+    else:
+        src = mk_source(P)
+    if not all(hasattr(src, a) for a in SRC_PRIVATE):
+        chk.count("private_members_missing", "srchist")
+        return None
+    rep = chk.lean.ask({"op": "src_hist", "P": lean_P(P), "t0": t0, "ops": src_lean_ops(steps)})
+    if "err" in rep:
+        return ("broken", "model-vs-code:srchist", f"the model rejects this history: {rep['err']}", case)
+    prev_cache = None
+    for i, (st, mo) in enumerate(zip(steps, rep["steps"])):
+        where = f"step {i + 1} ({json.dumps(st)})"
+        exc, out, samples, calls = None, None, None, []
+        try:
+            if st["op"] == "cache":
+                out = src.cache_prob_table(st["n"], st["f"])
+            elif st["op"] == "samples":
+                with Draws() as rec:
+                    if st["f"]:
+                        samples = src.generate_samples(st["k"], BasicState(st["ns"]), st["f"])
+                    else:
+                        samples = src.generate_samples(st["k"], BasicState(st["ns"]))
+                calls = rec.calls
+            elif st["op"] == "dist":
+                src.generate_distribution(BasicState(st["ns"]))
+            else:
+                src.probability_distribution(st["n"])
+        except (ZeroDivisionError, IndexError) as e:
+            exc = type(e).__name__
+        except Exception as e:  # noqa
+            return ("violation", "raises-" + type(e).__name__,
+                    f"{where}: {type(e).__name__}: {str(e)[:200]}", case)
+        # ---- the property, directly on the real code: a filtered request draws its events from the table of ITS
+        # photon number and filter (what a new Source computes for it), and no sample falls below the filter
+        if st["op"] == "samples" and st["f"] and calls and is_event_draw(calls[0]):
+            n, f = sum(st["ns"]), st["f"]
+            try:
+                want = mk_source(P)._compute_prob_table(n, f)[0]
+            except Exception:  # noqa
+                want = None
+            if want is not None:
+                wk = [tuple(int(x) for x in k) for k in want.keys()]
+                wv = [float(v) for v in want.values()]
+                used_k, used_w = calls[0][1], calls[0][2]
+                if used_k != wk or any(not close_rel(a, b, 1e-12) for a, b in zip(used_w, wv)):
+                    return ("violation", "stale-event-table",
+                            f"{where}: generate_samples draws its events from a table that is not the table of this "
+                            f"request ({len(used_k)} events {used_k[:4]} weights {used_w[:4]}; a new Source uses "
+                            f"{len(wk)} events {wk[:4]} weights {wv[:4]}) — the samples are not conditioned on this "
+                            f"filter", case)
+            if any(s.n < f for s in samples):
+                return ("violation", "sample-below-filter",
+                        f"{where}: a sample has fewer photons than min_detected_photons", case)
+        # ---- model vs code: outcome
+        mout = mo["out"]
+        bad = None
+        if mout in ("ZeroDivisionError", "IndexError"):
+            if exc != mout:
+                bad = f"model: {mout}, code: {exc or 'no exception'}"
+        elif exc is not None:
+            bad = f"model: {mout}, code raises {exc}"
+        elif mout == "cached":
+            if not core.close(out[0], float(F(mo["perf"]))) or not core.close(out[1], float(F(mo["zpp"]))):
+                bad = f"cache_prob_table returns {out!r}, model ({float(F(mo['perf']))!r}, {float(F(mo['zpp']))!r})"
+        elif mout == "events":
+            if not calls or not is_event_draw(calls[0]):
+                bad = "model: events are drawn from the table, the code makes no such draw"
+            else:
+                bad = src_cmp_table(P, sum(st["ns"]), st["f"], calls[0][1], calls[0][2], mo["used"])
+                if bad is None and len(samples) != st["k"]:
+                    bad = f"{len(samples)} samples for {st['k']} requested"
+        elif mout == "aborted":
+            if len(samples) != 0 or calls:
+                bad = f"model: aborted (no sample, no draw), code: {len(samples)} samples, {len(calls)} draws"
+        elif mout == "perfect":
+            if calls or [bs_modes(x) for x in samples] != [[[None] * k for k in st["ns"]]] * st["k"]:
+                bad = "model: perfect source, the code does not return the input unchanged without drawing"
+        elif mout == "no-filter":
+            if len(samples) != st["k"] or (calls and is_event_draw(calls[0])):
+                bad = "model: unfiltered route, the code draws events from a table or returns another number of samples"
+        if bad is not None:
+            return ("broken", "model-vs-code:src-outcome", f"{where}: {bad}", case)
+        # ---- model vs code: the object after the call
+        tag = src.get_tag("discernability_tag")
+        if tag != mo["tag"]:
+            return ("broken", "model-vs-code:src-tag",
+                    f"{where}: tag counter after the call {tag}, model {mo['tag']}", case)
+        mc = mo["cache"]
+        if (src._prob_table is None) != (mc is None):
+            return ("broken", "model-vs-code:src-cache",
+                    f"{where}: _prob_table is {'None' if src._prob_table is None else 'set'}, model: "
+                    f"{'None' if mc is None else 'set'}", case)
+        if mc is not None:
+            if (src._prob_table_n, src._prob_table_filter) != (mc["n"], mc["f"]):
+                return ("broken", "model-vs-code:src-cache",
+                        f"{where}: cache key ({src._prob_table_n}, {src._prob_table_filter}), model "
+                        f"({mc['n']}, {mc['f']})", case)
+            keys = [tuple(int(x) for x in k) for k in src._prob_table.keys()]
+            bad = src_cmp_table(P, mc["n"], mc["f"], keys, list(src._prob_table.values()), mc["table"])
+            if bad is not None:
+                return ("broken", "model-vs-code:src-cache", f"{where}: cached table: {bad}", case)
+        # ---- branches (from the model's account of the step)
+        if st["op"] == "samples" and st["f"] and mout in ("events", "IndexError"):
+            key = (sum(st["ns"]), st["f"])
+            if prev_cache is None:
+                chk.branch("src-cache-first")
+            elif (prev_cache["n"], prev_cache["f"]) == key:
+                chk.branch("src-cache-hit")
+                if steps[i - 1]["op"] == "cache":
+                    chk.branch("src-hit-after-cache_prob_table")
+                if mout == "IndexError":
+                    chk.branch("src-hit-on-empty-table")
+            elif prev_cache["n"] == key[0]:
+                chk.branch("src-cache-miss-filter")
+            elif prev_cache["f"] == key[1]:
+                chk.branch("src-cache-miss-n")
+            else:
+                chk.branch("src-cache-miss-both")
+            if mout == "events" and mo["tag"] > 0:
+                chk.branch("src-events-tag-restored")
+        if mout == "ZeroDivisionError":
+            chk.branch("src-zero-div")
+        if mout == "no-filter" and prev_cache is not None:
+            chk.branch("src-nofilter-keeps-cache")
+        if mout == "aborted":
+            chk.branch("src-aborted")
+        if mout == "moved" and prev_cache is not None:
+            chk.branch("src-dist-between")
+        chk.count("src_step_outcome", mout)
+        prev_cache = mc
+    return None
+
+
+def srchist_simpler(c):
+    steps = c["steps"]
+    if c.get("t0"):
+        yield {k: v for k, v in c.items() if k != "t0"}
+    for i in range(len(steps)):
+        if len(steps) > 1:
+            yield {**c, "steps": steps[:i] + steps[i + 1:]}
+    for i, st in enumerate(steps):
+        if st.get("k", 1) > 1:
+            yield {**c, "steps": steps[:i] + [{**st, "k": 1}] + steps[i + 1:]}
+        if "ns" in st and len(st["ns"]) > 1:
+            yield {**c, "steps": steps[:i] + [{**st, "ns": [sum(st["ns"])]}] + steps[i + 1:]}
+
+
+def handle_srchist(chk, case):
+    chk.count("kind", "srchist")
+    chk.branch("srchist")
+    chk.count("srchist_steps", len(case["steps"]))
+    t0 = time.perf_counter()
+    res = judge(chk, case)
+    secs = chk.extra.setdefault("seconds_by_kind", {})
+    secs["srchist"] = round(secs.get("srchist", 0.0) + time.perf_counter() - t0, 3)
+    chk.case(("srchist", json.dumps(case, sort_keys=True)), nontrivial=not classify(case["P"])[0], sample=case)
+    if res is not None:
+        small = shrink(chk, case, res[1])
+        r2 = judge(chk, small) or res
+        chk.fail(r2[0], res[1], r2[2], {"case": small})
+
+
+SRC_REQUIRED = ["srchist", "src-cache-first", "src-cache-hit", "src-hit-after-cache_prob_table",
+                "src-hit-on-empty-table", "src-cache-miss-filter", "src-cache-miss-n", "src-cache-miss-both",
+                "src-events-tag-restored", "src-zero-div", "src-nofilter-keeps-cache", "src-aborted",
+                "src-dist-between", "src-context-tag"]
+
+
+def srchist_scripted():
+    """deterministic histories that reach every branch of SRC_REQUIRED whatever the seed"""
+    S = lambda ns, f, k=3: {"op": "samples", "ns": ns, "f": f, "k": k}   # noqa
+    C = lambda n, f: {"op": "cache", "n": n, "f": f}                     # noqa
+    D = lambda ns: {"op": "dist", "ns": ns}                              # noqa
+    out = []
+    for name in ("pd-dist", "pd-indist", "nonpd-g2", "no-loss-g2", "hom-only", "loss-only"):
+        out.append({"kind": "srchist", "P": FIXED[name], "seed": 11, "steps": [
+            S([1, 1], 1), S([2], 1), S([1, 1], 2), S([1, 1, 1], 2), S([2, 1], 0), S([2, 1], 2), D([1, 1]),
+            S([1, 2], 2), C(2, 1), S([1, 1], 1), {"op": "pd", "n": 2}, S([1], 3), S([1], 3), C(4, 2),
+            S([2, 1], 1), S([1, 1], 2)]})
+    out.append({"kind": "srchist", "P": FIXED["eta-zero"], "seed": 12, "steps": [
+        S([1, 1], 1), C(2, 1), C(2, 0), S([1, 1], 0), C(1, 3), S([1], 3), D([1])]})
+    out.append({"kind": "srchist", "P": FIXED["pd-dist"], "seed": 14, "t0": 5, "steps": [
+        S([1, 1], 1), S([2], 0), S([1, 1], 1), D([1]), S([1, 1], 2)]})
+    out.append({"kind": "srchist", "P": FIXED["perfect"], "seed": 13, "steps": [
+        S([1, 1], 1), C(2, 1), S([1, 1], 1), S([1, 1], 0), D([1, 1]), C(2, 2), S([2], 2)]})
+    return out
+
+
+def gen_srchist(rng, P):
+    n0, f0 = rng.randint(1, 3), rng.randint(1, 3)
+
+    def arrangement(n):
+        m = rng.randint(1, 3)
+        ns = [0] * m
+        for _ in range(n):
+            ns[rng.randrange(m)] += 1
+        return ns
+    steps = []
+    for _ in range(rng.randint(3, 9)):
+        n = rng.choice([n0, n0, n0 + 1])
+        f = rng.choice([f0, f0, f0 + 1, 0, 2 * n + 1])
+        u = rng.random()
+        if u < 0.6:
+            steps.append({"op": "samples", "ns": arrangement(n), "f": f, "k": rng.randint(1, 4)})
+        elif u < 0.8:
+            steps.append({"op": "cache", "n": n, "f": f})
+        elif u < 0.92:
+            steps.append({"op": "dist", "ns": arrangement(rng.randint(0, 2))})
+        else:
+            steps.append({"op": "pd", "n": rng.randint(0, 2)})
+    return {"kind": "srchist", "P": P, "seed": rng.randrange(1 << 30), "t0": rng.choice([0, 0, 0, 3, 17]),
+            "steps": steps}
+
+
+JUDGES["srchist"] = judge_srchist
+
+
 def judge(chk, case):
     try:
         return JUDGES[case["kind"]](chk, case)
@@ -2401,6 +2662,8 @@ def simpler(case):
     if c["kind"] == "hist":
         yield from hist_simpler(c)
         return
+    if c["kind"] == "srchist":
+        yield from srchist_simpler(c)
     if "ns" in c:
         ns = c["ns"]
         for i in range(len(ns)):
@@ -2498,6 +2761,8 @@ def handle(chk, case):
         return handle_hist(chk, case)
     if case["kind"] == "anon":
         return handle_anon(chk, case)
+    if case["kind"] == "srchist":
+        return handle_srchist(chk, case)
     P = case["P"]
     kind = case["kind"]
     chk.count("kind", kind)
@@ -2608,8 +2873,13 @@ def run(chk: core.Check):
                 "edge of the lattice; orders of magnitude (every decade of brightness*g2 from 1e-5 to 1e-2 with "
                 "brightness < 1 and = 1, brightness / transmittance / sqrt(indistinguishability) down to 1e-2..1e-3 and "
                 "up to 1 - 1e-3..1e-4) x every exact kind of observation; fixed parameter classes x ALL inputs with <=3 modes and 0..2 (thorough 0..3) photons "
-                "per mode, plus random tuples; distinct = distinct settings; non-trivial = imperfect source and at "
-                "least one requested photon")
+                "per mode, plus random tuples; HISTORIES of public calls on ONE Source object (kind 'srchist': "
+                "cache_prob_table / generate_samples with and without filter / generate_distribution / "
+                "probability_distribution, 3-16 calls, requests that hit and miss the cached event table in the photon "
+                "number, in the filter, in both, after cache_prob_table, on an empty table; initial tag counter 0 or "
+                "handed in through the constructor's context; after every call outcome, tag counter and cache "
+                "attributes against the state machine Model/C06Src.lean); distinct = distinct settings; non-trivial = "
+                "imperfect source and at least one requested photon")
     chk.assumptions = [
         "q and r are chosen rational; Python receives g2=(1-q^2)/(2*beta) and I=r^2 as floats and takes the roots "
         "itself (on the grid used — q>=1/20 and g2>=5e-6, or q=0 with dyadic beta,g2 — the float cancellation of "
@@ -2639,6 +2909,10 @@ def run(chk: core.Check):
         "additionally validated by the statistical goodness-of-fit test (a test, not a proof)",
         "a NoiseModel updated in place takes effect at the next assignment to processor.noise (NoiseModel has no "
         "observer); reads between the in-place update and the assignment are performed but not judged",
+        "kind 'srchist': the event-table cache is observed through the private attributes _prob_table, _prob_table_n, "
+        "_prob_table_filter (read only) and through the population/weights of the recorded random.choices call; the "
+        "direct oracle recomputes the table of the request on a new Source of the same parameters; every request asks "
+        "for at least one sample",
         "an assignment of noise values the Source constructor rejects (brightness 0, brightness*g2 > 1/2) is expected "
         "to raise AssertionError and to leave the processor with the source of the values accepted last; reads in that "
         "state are compared with the model only; while a custom input is the current input, "
@@ -2685,6 +2959,7 @@ def run(chk: core.Check):
     chk.required_branches += mag_required()
     # simplify_distribution = True: every cell of the lattice, the merging / renaming branches, anonymize_annotations
     chk.required_branches += simplify_required()
+    chk.required_branches += SRC_REQUIRED
     chk.lean = core.LeanDriver("C06")
     rng = chk.rng
 
@@ -2959,6 +3234,12 @@ def run(chk: core.Check):
         cases.append(case)
     # 9. Source.simplify_distribution = True (anonymize_annotations)
     cases.extend(simplify_cases(chk, lat, rng))
+    # 10. histories of calls on ONE Source object: event-table cache and tag counter (model Model/C06Src.lean)
+    cases.extend(srchist_scripted())
+    for il, (cell, P) in enumerate(lat):
+        cases.append(gen_srchist(rng, P))
+    for _ in range(chk.pick(150, 1500)):
+        cases.append(gen_srchist(rng, rng.choice(POOL) if rng.random() < 0.5 else rand_params(rng)))
     for case in cases:
         handle(chk, case)
     chk.extra["gof_false_alarm_level"] = ALPHA
